@@ -11,13 +11,17 @@
                           reach ... n -> chain_ok H St (chain (n_c n))
    is FALSE of the model, and of the code: Validate (transactions_pool.go:75) takes a chain whose
    tip is dated 0 for an empty chain, so it neither refuses a repeated or skipped tick nor
-   withholds the genesis amount (C04_chain_ok_refuted); and with a negative interval the test
-   "timestamp > nextBlockTimestamp" (line 82) does not refuse a skipped tick
-   (C04_neg_interval_refuted). The theorem holds for a non-negative interval over the histories in
+   withholds the genesis amount (C04_chain_ok_refuted). The theorem holds over the histories in
    which no tip is dated 0 (C04_chain_ok_nz), in particular over those in which first blocks are
-   dated at a positive time (C04_chain_ok_pos). *)
+   dated at a positive time (C04_chain_ok_pos). No sign condition on the interval is needed:
+   AddBlock (blockchain.go:41-57) refuses a block that is not dated after the tip, so a produced
+   block is dated after the tip (C04_produced_after_tip), which with the two tick tests of
+   Validate leaves the next tick only; with an interval that is not positive nothing is produced
+   after a first block and no neighbor's answer is accepted (C04_verified_interval_pos), e.g. the
+   tick two negative intervals "after" the tip, which Validate lets through, is refused by AddBlock
+   (C04_ex_neg_interval_refused). *)
 From RV Require Import model.Base model.Ledger model.Registry model.Chain model.Sync model.Pool model.Reach.
-From RV Require Import proofs.Sync_lemmas proofs.Reach_lemmas.
+From RV Require Import proofs.Pool_lemmas proofs.Sync_lemmas proofs.Reach_lemmas.
 
 (* a produced block, on a chain whose tip [p] is not dated 0, at a tick of the chain's time grid:
    linked to the tip, one interval after it, exactly one reward, every ordinary transaction
@@ -27,7 +31,7 @@ Theorem C04_produced :
          (H : block -> hash) (gen_id : slice input -> slice output -> Z -> string)
          (St : settings) (validator : string)
          (n : node) (ts : Z) (perm : list nat) (n' : node) (d : list (string * drop)) (p : block),
-    (0 < s_fee St)%N -> (0 <= s_interval St)%Z ->
+    (0 < s_fee St)%N ->
     validate value_fn addr_of sig_ok H gen_id St validator n ts perm = (n', Produced d) ->
     op_ok St n (OpValidate ts perm) ->
     last_block (chain (n_c n)) = Some p -> b_ts p <> 0%Z ->
@@ -35,6 +39,26 @@ Theorem C04_produced :
       chain (n_c n') = chain (n_c n) ++ [b] /\
       b_prev b = H p /\ b_ts b = (b_ts p + s_interval St)%Z /\ one_reward b /\ in_window p b.
 Proof. exact produced_rules. Qed.
+
+(* a block produced on a chain that is not empty is dated after the tip: AddBlock refuses it
+   otherwise (the tick is then refused with the pool re-ordered, C11_refused_cases) *)
+Theorem C04_produced_after_tip :
+  forall (value_fn : N -> bool -> Z -> N) (addr_of : string -> string) (sig_ok : input -> bool)
+         (H : block -> hash) (gen_id : slice input -> slice output -> Z -> string)
+         (St : settings) (validator : string)
+         (n : node) (ts : Z) (perm : list nat) (n' : node) (d : list (string * drop)),
+    validate value_fn addr_of sig_ok H gen_id St validator n ts perm = (n', Produced d) ->
+    chain (n_c n) <> [] -> (last_block_ts (chain (n_c n)) < ts)%Z.
+Proof. exact validate_produced_after_tip. Qed.
+
+(* an answer is accepted only under a positive interval: the closing AddBlock of verify
+   (blockchain.go:358-363) is dated one interval after the last answered block *)
+Theorem C04_verified_interval_pos :
+  forall (value_fn : N -> bool -> Z -> N) (addr_of : string -> string) (sig_ok : input -> bool)
+         (H : block -> hash) (St : settings)
+         (host : cstate) (lh neigh old : list block) (now : Z) (v : list block),
+    verify value_fn addr_of sig_ok H St host lh neigh old now = Ok v -> (0 < s_interval St)%Z.
+Proof. exact verify_ok_interval_pos. Qed.
 
 (* an accepted answer: every block of it that is new (its hash is not the hash of the host's
    block at the same position) and is not the first block of a full answer is linked to its
@@ -73,7 +97,7 @@ Theorem C04_step :
   forall (value_fn : N -> bool -> Z -> N) (addr_of : string -> string) (sig_ok : input -> bool)
          (H : block -> hash) (gen_id : slice input -> slice output -> Z -> string)
          (St : settings) (validator : string) (n : node) (o : op),
-    (0 < s_fee St)%N -> (0 <= s_interval St)%Z -> (forall a b : block, H a = H b -> a = b) ->
+    (0 < s_fee St)%N -> (forall a b : block, H a = H b -> a = b) ->
     chain_ok H St (chain (n_c n)) ->
     chain (n_c n) = [] \/ last_block_ts (chain (n_c n)) <> 0%Z ->
     op_ok St n o ->
@@ -85,7 +109,7 @@ Theorem C04_chain_ok_nz :
   forall (value_fn : N -> bool -> Z -> N) (addr_of : string -> string) (sig_ok : input -> bool)
          (H : block -> hash) (gen_id : slice input -> slice output -> Z -> string)
          (St : settings) (validator : string) (n : node),
-    (0 < s_fee St)%N -> (0 <= s_interval St)%Z -> (forall a b : block, H a = H b -> a = b) ->
+    (0 < s_fee St)%N -> (forall a b : block, H a = H b -> a = b) ->
     reach_nz value_fn addr_of sig_ok H gen_id St validator n ->
     chain_ok H St (chain (n_c n)).
 Proof. exact reach_nz_chain_ok. Qed.
@@ -97,7 +121,7 @@ Theorem C04_chain_ok_pos :
   forall (value_fn : N -> bool -> Z -> N) (addr_of : string -> string) (sig_ok : input -> bool)
          (H : block -> hash) (gen_id : slice input -> slice output -> Z -> string)
          (St : settings) (validator : string) (n : node),
-    (0 < s_fee St)%N -> (0 <= s_interval St)%Z -> (forall a b : block, H a = H b -> a = b) ->
+    (0 < s_fee St)%N -> (forall a b : block, H a = H b -> a = b) ->
     reach_pos value_fn addr_of sig_ok H gen_id St validator n ->
     chain_ok H St (chain (n_c n)).
 Proof. exact reach_pos_chain_ok. Qed.
@@ -119,16 +143,6 @@ Theorem C04_chain_ok_refuted :
     reach value_fn addr_of sig_ok H gen_id St validator n /\
     ~ chain_ok H St (chain (n_c n)).
 Proof. exact ReachExample.chain_ok_zero_tip_refuted. Qed.
-
-(* ... and so is the statement for positive timestamps without a sign condition on the interval *)
-Theorem C04_neg_interval_refuted :
-  exists (value_fn : N -> bool -> Z -> N) (addr_of : string -> string) (sig_ok : input -> bool)
-         (H : block -> hash) (gen_id : slice input -> slice output -> Z -> string)
-         (St : settings) (validator : string) (n : node),
-    (0 < s_fee St)%N /\ (forall a b : block, H a = H b -> a = b) /\
-    reach_pos value_fn addr_of sig_ok H gen_id St validator n /\
-    ~ chain_ok H St (chain (n_c n)).
-Proof. exact ReachExample.chain_ok_neg_interval_refuted. Qed.
 
 (* no block from the future is adopted: a block of the chain held after a replacing sync round
    has the hash of a block the host already held, or is dated no later than the node's time, or
@@ -173,6 +187,16 @@ Proof.
   split; [exact ReachExample.n2_reach_pos|]. vm_compute. reflexivity.
 Qed.
 
+(* a negative interval (-10), a first block at 100: the tick 80 is on the time grid (two intervals
+   "after" the tip) and passes the two tick tests of Validate; AddBlock refuses it, being dated
+   before the tip, and the chain keeps its single block *)
+Example C04_ex_neg_interval_refused :
+  op_ok ReachExample.Sneg (ReachExample.m1 ReachExample.Hinj) (OpValidate 80 []) /\
+  snd (validate SyncExample.vf SyncExample.ao SyncExample.so ReachExample.Hinj ReachExample.gid
+                ReachExample.Sneg "V"%string (ReachExample.m1 ReachExample.Hinj) 80 []) = Refused ETime /\
+  map b_ts (chain (n_c (ReachExample.m2 ReachExample.Hinj))) = [100%Z].
+Proof. exact ReachExample.neg_interval_tick_refused. Qed.
+
 (* the same node adopts a neighbor's three blocks when its time is 40, and keeps its own chain
    when its time is 25: the neighbor's third block, dated 30, would be from the future *)
 Example C04_ex_adoption :
@@ -185,6 +209,8 @@ Example C04_ex_adoption :
 Proof. split; [exact ReachExample.n3_reach_pos|]. vm_compute. split; reflexivity. Qed.
 
 Print Assumptions C04_produced.
+Print Assumptions C04_produced_after_tip.
+Print Assumptions C04_verified_interval_pos.
 Print Assumptions C04_verified_new.
 Print Assumptions C04_adoption.
 Print Assumptions C04_step.
@@ -192,6 +218,5 @@ Print Assumptions C04_chain_ok_nz.
 Print Assumptions C04_chain_ok_pos.
 Print Assumptions C04_reach_pos_reach.
 Print Assumptions C04_chain_ok_refuted.
-Print Assumptions C04_neg_interval_refuted.
 Print Assumptions C04_not_future.
 Print Assumptions C04_not_future_inj.
